@@ -260,10 +260,18 @@ def run(chk, replay=None):
             fid = 0
             if op == 'scale':
                 v = rng.choice([0.5, 2.0, 0.25, 4.0, 1.0, 0.1, 3.0, 1e-3, 365.25])
+                if rng.random() < 0.25:
+                    # scale() also takes an array: one weight per magnitude bin, per cell, or per (cell, bin)
+                    shp = rng.choice([(base.shape[1],), (base.shape[0], 1), base.shape])
+                    v = numpy.array([rng.choice([0.5, 2.0, 0.25, 1.0, 3.0]) for _ in range(int(numpy.prod(shp)))]).reshape(shp)
+                    if numpy.all(v == v.ravel()[0]):
+                        v.ravel()[0] = 4.0 if v.ravel()[0] != 4.0 else 0.5
+                    if v.size == 1:
+                        v = float(v.ravel()[0])
                 r_ = guarded(fc.scale, v)
                 factors.append(v)
                 fid = len(factors) - 1
-                desc.append(('scale', v))
+                desc.append(('scale', v if numpy.ndim(v) == 0 else numpy.asarray(v).tolist()))
             elif op == 'date':
                 d = start + datetime.timedelta(days=rng.randint(1, 1800), hours=rng.choice([0, 12]))
                 r_ = guarded(fc.scale_to_test_date, d.replace(tzinfo=tz))
@@ -289,21 +297,29 @@ def run(chk, replay=None):
                 break
             data = numpy.array(fc.data, dtype=float)
             ratio = -1
+            def fkey(f_):
+                return float(f_) if numpy.ndim(f_) == 0 else ('array', numpy.shape(f_), numpy.asarray(f_, dtype=float).tobytes())
             for k_, f_ in enumerate(factors):
-                exact = data.tobytes() == (base * f_).tobytes()
+                exact = data.shape == base.shape and data.tobytes() == (base * f_).tobytes()
                 # a date factor is a difference of decimal years (~2010.x): cancellation costs eps*2200/f relative
-                rt = 1e-12 + (8 * 2.0 ** -52 * 2200.0 / max(f_, 1e-300) if k_ > 0 else 0.0)
-                if exact or numpy.allclose(data, base * f_, rtol=rt, atol=0.0):
+                rt = 1e-12 + (8 * 2.0 ** -52 * 2200.0 / max(float(numpy.min(f_)), 1e-300) if k_ > 0 else 0.0)
+                if exact or (data.shape == base.shape and numpy.allclose(data, base * f_, rtol=rt, atol=0.0)):
                     # prefer the most recent identifier of an equal factor value
-                    if ratio == -1 or factors[k_] == factors[ratio] or exact:
+                    if ratio == -1 or fkey(factors[k_]) == fkey(factors[ratio]) or exact:
                         ratio = k_
             # identical factor values share an identifier for the comparison
-            canon = {v: i for i, v in reversed(list(enumerate(factors)))}
-            ratio_c = canon[factors[ratio]] if ratio >= 0 else -1
-            fid_c = canon[factors[fid]] if op in ('scale', 'date') else 0
-            tot = float(fc.sum())
-            marg = 1 if (abs(float(fc.spatial_counts().sum()) - tot) <= 1e-12 * max(tot, 1e-300)
-                         and abs(float(fc.magnitude_counts().sum()) - tot) <= 1e-12 * max(tot, 1e-300)) else 0
+            canon = {fkey(v): i for i, v in reversed(list(enumerate(factors)))}
+            ratio_c = canon[fkey(factors[ratio])] if ratio >= 0 else -1
+            fid_c = canon[fkey(factors[fid])] if op in ('scale', 'date') else 0
+            # the total is one number, and both marginals add up to it
+            tot = guarded(lambda: fc.sum())
+            sc_, mc_ = guarded(lambda: float(fc.spatial_counts().sum())), guarded(lambda: float(fc.magnitude_counts().sum()))
+            if isinstance(tot, Raised) or numpy.ndim(tot) != 0 or isinstance(sc_, Raised) or isinstance(mc_, Raised):
+                marg = 0
+            else:
+                tot = float(tot)
+                marg = 1 if (abs(sc_ - tot) <= 1e-12 * max(tot, 1e-300) and abs(mc_ - tot) <= 1e-12 * max(tot, 1e-300)
+                             and abs(float(data.sum()) - tot) <= 1e-12 * max(tot, 1e-300)) else 0
             calls.append({'op': op, 'f': fid_c, 'ratio': ratio_c, 'marg': marg})
         traces.append(calls)
         metas.append(desc)
